@@ -16,3 +16,8 @@ package csrand
 
 //@ func Float64() (ret)
 //@   serves C12
+
+//@ func Bytes(buf) (err)
+//@   serves C12
+//@   nobody reads the operating system CSPRNG (crypto/rand.Reader); only the frame is stated
+//@   modifies elems(buf)
